@@ -252,7 +252,7 @@ def execute(sc):
         clipped = np.where(np.abs(v64) > 2.5 * sigma, 2.5 * sigma * np.sign(v64), v64)
         s = np.abs(clipped).max() if clipped.size else 0.0
         # float32 rounding of sigma: for a (near-)constant leaf 2.5*sigma is a rounding residue, not exactly 0
-        tol = 1e-5 * max(s, float(np.abs(v64).max()), 1e-30) + 1e-7
+        tol = max(1e-5, 3e-7 * v64.size) * max(s, float(np.abs(v64).max()), 1e-30) + 1e-30
         ok = (np.abs(o) <= tol) | (np.abs(np.abs(o) - s) <= tol)
         sign_ok = (np.abs(o) <= tol) | (np.sign(o) == np.sign(v64))
         if not np.all(ok & sign_ok):
@@ -285,7 +285,8 @@ def execute(sc):
         bound = max(np.abs(clip(t[k])).max() for t, _ in act) if wsum > 0 else 0.0
         # float32 sigma of a (near-)constant leaf is a rounding residue of size ~1e-7*|v|, not exactly 0
         vmax = max(float(np.max(np.abs(t[k]))) for t, _ in act)
-        if np.max(np.abs(o - exactc)) > bound * (1 + 1e-5) + 1e-6 * max(bound, vmax) + 1e-30:
+        nres = max(1e-6, 3e-7 * clients[0][1][k].size)     # float32 mean/std of n equal values: residue ~ n * eps
+        if np.max(np.abs(o - exactc)) > bound * (1 + 1e-5) + nres * max(bound, vmax) + 1e-30:
           violation('Q3', 'Q3:aggregate-further-than-s-from-clipped-weighted-mean:terngrad', f'{label}: leaf {k}')
       elif name == 'rotated':
         size = clients[0][1][k].size
